@@ -297,6 +297,9 @@ def rollout(tier: str, prop: str) -> list[dict]:
         dict(env="Pendulum", L=300, stack=[["RescaleObservation", -5.0, 5.0], ["ClipAction"], ["TimeLimit", 50], ["ClipReward", -2.0, 0.0]]),
         dict(env="ContinuousMountainCar", L=600, stack=[["RescaleObservation", 0.0, 10.0], ["RescaleAction", -2.0, 2.0], ["Identity"], ["TimeLimit", 300]]),
         dict(env="Acrobot", L=300, stack=[["RescaleObservation", 2.0, 3.0], ["TimeLimit", 100], ["FlattenObservation"], ["Identity"]]),
+        # action ranges that are NOT centred on zero and not of the inner width (non-zero intercept and non-unit gradient of the affine map)
+        dict(env="Pendulum", L=200, stack=[["RescaleAction", 0.0, 1.0], ["TimeLimit", 50]]),
+        dict(env="ContinuousMountainCar", L=300, kwargs={"min_action": 0.0, "max_action": 1.0}, stack=[["RescaleAction", -1.0, 3.0], ["ClipAction"], ["TimeLimit", 150]]),
     ]
     mj_quick = [
         dict(env="InvertedPendulum", L=150, stack=[["TimeLimit", 40]]),
